@@ -102,8 +102,14 @@ func containsErr(o object.PanObject, depth int) bool {
 func H_C07_inject() {
 	t := c07Templates[rt.Param(0)]
 	h := NewH()
-	kinds := []string{"ValueErr", "TypeErr", "ZeroDivisionErr"}
+	kinds := []string{"ValueErr", "TypeErr", "ZeroDivisionErr", "StopIterErr", "NameErr", "NoPropErr"}
 	h.Kind = kinds[rt.Choice(len(kinds))]
+	// a StopIterErr raised inside the body of an iterator that a chain or A is consuming IS
+	// the iterator protocol's end signal (C14: the consumer stops at the first StopIterErr),
+	// so that error kind is outside the domain for the template whose slots run there
+	if t.name == "predicate of a native loop helper" {
+		rt.Assume(h.Kind != "StopIterErr")
+	}
 	K := rt.Int64()
 	rt.Assume(K >= 0 && K <= int64(t.m))
 	h.K = K
